@@ -48,6 +48,8 @@ def pArg (tok : String) : Option V :=
 
 def pTarget : List String → PR Target
   | "next" :: name :: k :: r => (match k.toNat? with | some k => (takeAE k r).map (fun p => (.next name p.1, p.2)) | none => none)
+  -- `~>`: an asynchronous transition is validated and taken like `->`
+  | "anext" :: name :: k :: r => (match k.toNat? with | some k => (takeAE k r).map (fun p => (.next name p.1, p.2)) | none => none)
   | "out" :: r => (pE17 r).map (fun p => (.output p.1, p.2))
   | _ => none
 
